@@ -1,7 +1,7 @@
 (* C17 — Channel messages arrive intact and in order; bad peer input only drops the peer.
    Only the property statements; each is closed by [exact] of a lemma of Proofs.v and followed by
    Print Assumptions.  Model: coq/C17/Model.v (p2p/conn/connection.go with the repair of F16;
-   consensus ValidateBasic predicates with the repairs of F21 and F26).
+   consensus ValidateBasic predicates with the repairs of F21 and F33).
 
    A history is any list of [op]s: OSend c m (a Send/TrySend call from any goroutine), OStep k
    (one sendPacketMsg in which the scheduler serves channel number k — ANY k: the
@@ -176,9 +176,9 @@ Example C17_validated_refuted_f21 :
   validate_basic_unfixed m = true /\ forallb demand_ok (demands m) = false /\ validate_basic m = false.
 Proof. vm_compute. repeat split. Qed.
 
-(* F26: without BitArray.ValidateBasic a 1-bit array with no words passes and is stored in the
+(* F33: without BitArray.ValidateBasic a 1-bit array with no words passes and is stored in the
    peer state, where gossipDataForCatchup's Not().PickRandom() reads Elems[len-1] = Elems[-1] *)
-Example C17_validated_refuted_f26 :
+Example C17_validated_refuted_f33 :
   let m := MNewValidBlock 5 0 {| psh_total := 1; psh_hashlen := 32 |}
                           {| ba_present := true; ba_bits := 1; ba_elems := 0 |} true in
   validate_basic_unfixed m = true /\ forallb demand_ok (demands m) = false /\ validate_basic m = false.
